@@ -221,6 +221,7 @@ def m_pbkdf2(ex, a, callee, canon):
     if not hasattr(ex, "len_vars"):
         ex.len_vars = {}
     ex.len_vars[res.get_id()] = outlen
+    ex.__dict__.setdefault("_keep_alive", []).append(res)   # ids key the table: the term must stay alive
     tgt.set(Bytes(res))
     return UNIT
 
@@ -235,6 +236,7 @@ def m_from_elem_hash(ex, a, callee, canon):
     if not hasattr(ex, "len_vars"):
         ex.len_vars = {}
     ex.len_vars[s.get_id()] = n.t
+    ex.__dict__.setdefault("_keep_alive", []).append(s)   # ids key the table: the term must stay alive
     return Bytes(s)
 
 
@@ -261,4 +263,5 @@ def m_index_range_hash(ex, a, callee, canon):
     if not hasattr(ex, "len_vars"):
         ex.len_vars = {}
     ex.len_vars[sl.get_id()] = hi - lo
+    ex.__dict__.setdefault("_keep_alive", []).append(sl)   # ids key the table: the term must stay alive
     return Ptr([Bytes(sl)], 0)
